@@ -993,7 +993,7 @@ func C01(t Tier) int {
 	run := report.NewRun("C01", t.Name, "model_checking", "E1+E2")
 	v := aolVariant{ID: "C01", OwnRec: true, Ctl: []string{"NB", "RS", "XI"}}
 	sys := aolSystem(v)
-	dl := deadline(t, 150*time.Second, 15*time.Minute)
+	dl := deadline(t, 120*time.Second, 15*time.Minute)
 	bounds := []explore.Bounds{{Depth: 4, V: 1, Deadline: dl}, {Depth: 5, V: 1, Deadline: dl}}
 	if t.Thorough {
 		bounds = []explore.Bounds{{Depth: 5, V: 1, Deadline: dl}, {Depth: 5, V: 2, Deadline: dl}, {Depth: 6, V: 2, Deadline: dl}, {Depth: 7, V: 2, Deadline: dl}}
@@ -1020,7 +1020,7 @@ func C02(t Tier) int {
 	run := report.NewRun("C02", t.Name, "model_checking", "E1+E2")
 	v := aolVariant{ID: "C02", Forged: true, OwnACL: true, Ctl: []string{"NB"}}
 	sys := aolSystem(v)
-	dl := deadline(t, 150*time.Second, 15*time.Minute)
+	dl := deadline(t, 120*time.Second, 15*time.Minute)
 	bounds := []explore.Bounds{{Depth: 4, V: 1, Deadline: dl}, {Depth: 5, V: 1, Deadline: dl}}
 	if t.Thorough {
 		bounds = []explore.Bounds{{Depth: 5, V: 1, Deadline: dl}, {Depth: 6, V: 1, Deadline: dl}, {Depth: 6, V: 2, Deadline: dl}, {Depth: 7, V: 2, Deadline: dl}}
@@ -1050,7 +1050,7 @@ func C13(t Tier) int {
 		if in != nil {
 			d = depth - 1
 		}
-		idl := deadline(t, 100*time.Second, 8*time.Minute) // each initial state has its own budget
+		idl := deadline(t, 75*time.Second, 8*time.Minute) // each initial state has its own budget
 		RunGraph(run, sys, []explore.Bounds{{Depth: d - 1, V: 1, Deadline: idl}, {Depth: d, V: 1, Deadline: idl}}, 6)
 	}
 	run.Assumptions = []string{
